@@ -35,6 +35,16 @@ def check(rep, tier, rng):
     pool.append(("emiterr2.x", b"typedef nosuch t[2];"))
     pool.append(("panics.x", b"const A = 1; const A = 2;"))
     pool.append(("nonutf8.x", b"struct s { int a; }; // \xff\xfe\n"))
+    # the same valid text with bytes an editor or a transfer may add at either end or inside: whatever the library says about
+    # exactly these contents (accept or reject) is what the CLI must do — no trimming, no normalisation on the way
+    base = pool[0][1].decode()
+    junk = [("bom", "\ufeff"), ("bom2", "\ufeff\ufeff"), ("nbsp", "\u00a0"), ("zwsp", "\u200b"), ("ff", "\x0c"), ("nul", "\x00"),
+            ("ctrlz", "\x1a"), ("vt", "\x0b"), ("cr", "\r"), ("ls", "\u2028"), ("nel", "\u0085")]
+    for tag, j in junk:
+        pool.append(("lead_%s.x" % tag, (j + base).encode()))
+        pool.append(("trail_%s.x" % tag, (base + j).encode()))
+    pool.append(("crlf.x", base.replace("\n", "\r\n").encode()))
+    pool.append(("lead_nl.x", ("\n\n \t" + base + " \n").encode()))
     for name, data in pool:
         open(os.path.join(d, name), "wb").write(data)
     os.makedirs(os.path.join(d, "adir.x"))
@@ -59,7 +69,7 @@ def check(rep, tier, rng):
     lib_out["adir.x"] = "U"
     # argument lists: 0..3 files
     arglists = [[]] + [[n] for n in names]
-    nl = 60 if tier == "quick" else 2000
+    nl = 100 if tier == "quick" else 2000
     while len(arglists) < nl:
         k = 2 + rng.below(2)
         arglists.append([rng.choice(names) for _ in range(k)])
@@ -99,7 +109,7 @@ def check(rep, tier, rng):
     rep.cov.update({"evaluations": len(arglists), "distinct_nontrivial": len(distinct), "traces_validated_against_impl": len(arglists) - tie,
                     "input_kinds": kinds,
                     "rule": "the fastxdr binary built from the working tree on argument lists of 0-3 paths drawn from {valid specs, empty file, grammar-rejected, "
-                            "emitter-Err, generator panic, non-UTF-8, missing, directory}; stdout compared byte for byte with the library's own results "
+                            "emitter-Err, generator panic, non-UTF-8, missing, directory, a valid text with BOM / NBSP / ZWSP / FF / NUL / ^Z / VT / CR / LS / NEL added at either end, CRLF line ends}; stdout compared byte for byte with the library's own results "
                             "(Generator::default().generate via harness/front) and with Fx.Cli; distinct = (outcome kinds of the arguments, exit code)",
                     "samples": [{"args": a, "model": m[:80]} for a, m in list(zip(arglists, model))[::max(1, len(arglists) // 6)]][:6]})
     if tie and nviol == 0:
